@@ -382,7 +382,17 @@ def stepHist (w : World) (ws : List String) : Option (World × String) :=
     | .ok (some (.ok l)) =>
       let opt := fun (o : Option String) => o.getD "-"
       let everyOther := (l.drop 1).zipIdx.filterMap fun p => if p.2 % 2 = 0 then some p.1 else none
-      pure (w, s!"ok n1={opt l[1]?} nb1={opt l.reverse[1]?} ss={showList id everyOther} tr={showList id (l.take 2).reverse} rs={showList id (l.reverse.drop 1)} last={opt l.getLast?} count={l.length}")
+      -- the provided `nth(n)` = `n` calls of `next`, then one more (`nth_back` likewise from the back); what a jump leaves
+      -- behind is seen by the call after it
+      let nth := fun (xs : List String) (n : Nat) => ((xs.drop n).head?, xs.drop (n + 1))
+      let nthBack := fun (xs : List String) (n : Nat) => ((xs.reverse.drop n).head?, (xs.reverse.drop (n + 1)).reverse)
+      let n := l.length
+      let big := 2 ^ 62
+      let two := fun (p : Option String × List String) (back : Bool) =>
+        s!"{opt p.1}/{opt (if back then p.2.getLast? else p.2.head?)}"
+      let rest := fun (p : Option String × List String) => s!"{opt p.1}/{showList id p.2}"
+      pure (w, s!"ok n1={opt l[1]?} nb1={opt l.reverse[1]?} ss={showList id everyOther} tr={showList id (l.take 2).reverse} rs={showList id (l.reverse.drop 1)} last={opt l.getLast?} count={l.length}"
+        ++ s!" nl={two (nth l n) false} nx={two (nth l (n - 1)) false} nh={two (nth l big) false} nbl={two (nthBack l n) true} nbh={two (nthBack l big) false} nr={rest (nth l 1)} nbr={rest (nthBack l 1)}")
   | ["nth", r, kind, n, ipat] => do
     -- iter_nth_row / iter_nth_col and their _mut forms (same adaptor chain)
     let r ← r.toNat?; let n ← n.toNat?
